@@ -32,7 +32,7 @@ NOT_DECIDED = {
     "C20": "nothing beyond the listed clauses: the check is two-sided on every numeric rule, but acceptance of 'every well-formed transaction' also depends on the serializer (C07)",
 }
 STATE = (" + refusal-as-entailment over the inputs (sym.must_refuse), stale-memo criteria (hit test vs state the kept value was computed from, weak keys, invalidation coverage over the class's state-changing methods), "
-         "state lints of the call tree (module-level objects frozen after import, shared accumulators, reused buffers, hoisted initialisations, class-level stores, native struct formats)")
+         "state lints of the call tree (module-level objects frozen after import, shared accumulators, reused buffers, hoisted initialisations, class-level stores, native struct formats, default-argument memos, derived copies of public attributes, tables of module-level objects adopted by constructors, floating point in integer kernels, overrides bypassed by a new method)")
 COMMON = ("trace-partitioned abstract interpretation over a term domain (sa/sym.py: symbolic store, canonical forms: renaming, temporaries, De Morgan, early returns, named constants, "
           "integer linear forms, loop <-> comprehension, helper inlining) ")
 TECH = {
